@@ -645,6 +645,18 @@ func c08EvalAuth(args []string) string {
 	case "s-ip-ok":
 		sc(x.ipSign, x.ipEnc)
 		st.ccfg.ServerName = "10.1.2.3"
+	case "s-ip-resume-other":
+		// a session with the server certified for 10.1.2.3 sits in the client's cache; the client now asks for
+		// 10.1.2.4 over the same transport address: another name, so no resumption, and the certificates do not cover it
+		sc(x.ipSign, x.ipEnc)
+		st.scfg.CipherSuites = []uint16{st.suite, st.other}
+		st.scfg.SessionTicketsDisabled = false
+		st.scfg.SetSessionTicketKeys([][32]byte{sessionTicketTestKey})
+		st.ccfg.ClientSessionCache = gmtls.NewLRUClientSessionCache(4)
+		st.ccfg.ServerName = "10.1.2.4"
+		firstC := st.ccfg.Clone()
+		firstC.ServerName = "10.1.2.3"
+		pre = func() string { c08Run(firstC, st.scfg, nil); return "" }
 	case "s-ip-other": // certificates for another address
 		sc(x.ip6Sign, x.ip6Enc)
 		st.ccfg.ServerName = "10.1.2.3"
@@ -1245,7 +1257,7 @@ func c08ClientAuthenticated(st *c08Setup, res *pairResult, m *gmPKI) string {
 var c08ServerAttacks = []string{"s-signkey-wrong", "s-enckey-wrong", "s-untrusted", "s-untrusted-withca", "s-untrusted-sign", "s-untrusted-enc",
 	"s-expired-sign", "s-expired-enc", "s-notyet-sign", "s-notyet-enc", "s-wildcard-ok", "s-wildcard-deep", "s-ip-ok", "s-ip-other", "s-ip-dnsonly", "s-ip6-ok", "s-ip6-dnsonly", "s-ip6-sign-only", "s-wrongname-sign", "s-wrongname-enc",
 	"s-rsa-sign", "s-rsa-enc", "s-p256-sign", "s-p256-enc", "s-swapped", "s-noku-sign", "s-noku-enc", "s-kusign-enc", "s-kuenc-sign", "s-dual", "s-wrongeku-sign", "s-wrongeku-enc",
-	"s-pinned-ok", "s-pinned-expired-sign", "s-pinned-expired-enc", "s-pinned-notyet-sign", "s-pinned-wrongname", "s-pinned-wrongeku-sign", "s-pinned-other",
+	"s-ip-resume-other", "s-pinned-ok", "s-pinned-expired-sign", "s-pinned-expired-enc", "s-pinned-notyet-sign", "s-pinned-wrongname", "s-pinned-wrongeku-sign", "s-pinned-other",
 	"ske-otherrandoms", "ske-otherclientrandom", "ske-otherserverrandom", "ske-swaprandoms", "ske-othercert", "ske-nolen",
 	"ske-by-enckey", "ske-by-otherkey", "ske-empty", "ske-replay", "cke-forge",
 	"s-ske-omitted", "s-fin-firstbyte", "s-fin-first11", "s-fin-lastbit", "c-fin-firstbyte", "c-fin-first11", "c-fin-lastbit"}
